@@ -64,6 +64,10 @@ type script struct {
 	I        int    `json:"i"`
 	Steps    []step `json:"steps"`
 	Deadline int    `json:"deadline,omitempty"` // ms: the session context is context.WithTimeout(…)
+	// hostile version negotiation: the peer answers Tversion with these bytes (hex), then closes if HSClose
+	Handshake string `json:"handshake,omitempty"`
+	HSClose   bool   `json:"hsclose,omitempty"`
+	HSWhat    string `json:"hswhat,omitempty"`
 }
 
 // ---------------------------------------------------------------- child
@@ -399,7 +403,46 @@ func (c *child) late(mt uint8, n int) {
 	}
 }
 
+// runHandshake: CSession against a peer whose answer to Tversion is hostile.
+// No model here (version.go is C10's): only "returns, does not crash, and a
+// session that was established still answers or fails its calls".
+func runHandshake(out *bufio.Writer, s script) {
+	c := &child{out: out}
+	ctx, stop := context.WithCancel(context.Background())
+	defer stop()
+	ans, _ := hex.DecodeString(s.Handshake)
+	c.emit("W", s.Handshake)
+	sess, p, err, ok := peer.DialHostile(ctx, ans, s.HSClose)
+	defer p.Conn.Close()
+	if !ok {
+		c.fail("version.clientnegotiate:hangs", fmt.Sprintf("CSession did not return within %v after the peer answered Tversion with %s (%s)", peer.Wait, s.HSWhat, s.Handshake))
+		return
+	}
+	if err != nil || sess == nil {
+		return // refused: fine
+	}
+	// a session was established: a call on it must come back (reply it if its frame arrives)
+	pc := peer.Start(context.Background(), sess, 120, 1, false)
+	select {
+	case <-pc.Done:
+		return
+	case f, okf := <-p.Frames:
+		if okf {
+			p.Send(peer.Reply(f.Tag, 121, 0))
+		}
+	case <-time.After(peer.Wait):
+	}
+	p.Conn.Close()
+	if _, ok := pc.Await(); !ok {
+		c.fail("transport.send:call-hangs-after-hostile-version", fmt.Sprintf("a call on the session established after the peer answered Tversion with %s (%s) did not return although the peer then closed the connection", s.HSWhat, s.Handshake))
+	}
+}
+
 func runScript(out *bufio.Writer, s script) {
+	if s.HSWhat != "" {
+		runHandshake(out, s)
+		return
+	}
 	c := &child{out: out, awaiting: map[uint16]uint32{}, live: map[uint32]*peer.Pending{}, tagOf: map[uint32]uint16{}, issued: map[uint16]bool{}, nextCall: 1, nextRid: 500000}
 	c.ctx, c.stop = context.WithCancel(context.Background())
 	defer func() {
@@ -561,6 +604,49 @@ func malformed(rng *prng.R, how string, withDecoderDefects bool) []byte {
 	panic("malformed: " + how)
 }
 
+func rversion(tag uint16, msize uint32, version string) []byte {
+	raw, err := peer.Encode(&p9p.Fcall{Type: p9p.Rversion, Tag: p9p.Tag(tag), Message: p9p.MessageRversion{MSize: msize, Version: version}})
+	if err != nil {
+		panic(err)
+	}
+	return raw
+}
+
+// genHandshake: hostile answers to Tversion.
+func genHandshake(rng *prng.R, i int) script {
+	s := script{I: i}
+	switch rng.Intn(9) {
+	case 0:
+		m := uint32(rng.Pick(0, 1, 3, 4, 6, 7, 8, 11, 23, 24, 100))
+		s.HSWhat, s.Handshake = fmt.Sprintf("Rversion msize=%d", m), hex.EncodeToString(rversion(peer.NOTAG, m, "9P2000"))
+	case 1:
+		m := uint32(rng.Pick(65537, 1<<20, 1<<31, 0xFFFFFFFF))
+		s.HSWhat, s.Handshake = fmt.Sprintf("Rversion msize=%d", m), hex.EncodeToString(rversion(peer.NOTAG, m, "9P2000"))
+	case 2:
+		v := []string{"", "unknown", "9P2000.L", "9P1999", strings.Repeat("v", 300)}[rng.Intn(5)]
+		short := v
+		if len(short) > 12 {
+			short = short[:12]
+		}
+		s.HSWhat, s.Handshake = "Rversion version="+short, hex.EncodeToString(rversion(peer.NOTAG, 65536, v))
+	case 3:
+		s.HSWhat, s.Handshake = "Rversion tag=7", hex.EncodeToString(rversion(7, 65536, "9P2000"))
+	case 4:
+		s.HSWhat, s.Handshake = "Rerror", hex.EncodeToString(peer.Reply(peer.NOTAG, 107, 1))
+	case 5:
+		ty := uint8(rng.Pick(100, 103, 111, 117, 121, 125))
+		s.HSWhat, s.Handshake = fmt.Sprintf("reply type %d", ty), hex.EncodeToString(peer.Reply(peer.NOTAG, ty, 1))
+	case 6:
+		s.HSWhat, s.Handshake, s.HSClose = "close", "", true
+	case 7:
+		s.HSWhat, s.Handshake, s.HSClose = "garbage", hex.EncodeToString(malformed(rng, "garbage", true)), true
+	default:
+		k := []string{"tinysize", "shortbody", "badtype", "truncated", "hugecount"}[rng.Intn(5)]
+		s.HSWhat, s.Handshake, s.HSClose = k, hex.EncodeToString(malformed(rng, k, true)), true
+	}
+	return s
+}
+
 func genScript(rng *prng.R, i int, decoderDefects bool, deadline bool) script {
 	var st []step
 	if deadline {
@@ -673,7 +759,11 @@ func main() {
 	}
 	w := bufio.NewWriter(f)
 	for i := range scripts {
-		scripts[i] = genScript(rng.Fork(), i, *decoderDefects, i%every == 3)
+		if i%10 == 7 {
+			scripts[i] = genHandshake(rng.Fork(), i)
+		} else {
+			scripts[i] = genScript(rng.Fork(), i, *decoderDefects, i%every == 3)
+		}
 		b, _ := json.Marshal(scripts[i])
 		w.Write(b)
 		w.WriteByte('\n')
@@ -813,12 +903,19 @@ func main() {
 		}
 	}
 
-	skipped := 0
+	skipped, handshakes := 0, 0
 	for i := range results {
 		res := &results[i]
 		if !res.started || res.skipped {
 			if res.skipped {
 				skipped++
+			}
+			continue
+		}
+		if scripts[i].HSWhat != "" {
+			handshakes++
+			for _, fl := range res.fails {
+				r.Fail(fl["key"], fl["what"], sx.Sym("(handshake "+scripts[i].Handshake+")"), map[string]interface{}{"answer_to_Tversion": scripts[i].Handshake, "what": scripts[i].HSWhat})
 			}
 			continue
 		}
@@ -847,6 +944,7 @@ func main() {
 		}
 	}
 	r.Extra["scripts_skipped_machine_too_slow"] = skipped
+	r.Extra["hostile_version_negotiations"] = handshakes
 	r.Extra["child_crashes"] = crashes
 	r.Extra["scripts"] = n
 }
